@@ -58,14 +58,13 @@ def canonicalize_addition(expr: AffineBinaryOpExpr) -> AffineExpr:
     if dim_rhs is not None:
         if dim_lhs is None or dim_lhs > dim_rhs:
             new_expr = expr.rhs + expr.lhs
-            # TODO: make __add__ typing more specific in xdsl to avoid this
-            assert isinstance(new_expr, AffineBinaryOpExpr)
+            if not isinstance(new_expr, AffineBinaryOpExpr) or new_expr.kind is not AffineBinaryOpKind.Add:
+                # xdsl already simplified the sum
+                return new_expr
             expr = new_expr
     # turn (a + b) + c into a + (b + c)
     if isinstance(expr.lhs, AffineBinaryOpExpr) and expr.lhs.kind is AffineBinaryOpKind.Add:
-        new_expr = expr.lhs.lhs + (expr.lhs.rhs + expr.rhs)
-        assert isinstance(new_expr, AffineBinaryOpExpr)
-        expr = new_expr
+        return expr.lhs.lhs + (expr.lhs.rhs + expr.rhs)
     return expr
 
 
@@ -95,9 +94,7 @@ def canonicalize_multiplication(expr: AffineBinaryOpExpr) -> AffineExpr:
             return expr.lhs
         # turn (a + b) * cst into (a * cst) + (b * cst)
         if isinstance(expr.lhs, AffineBinaryOpExpr) and expr.lhs.kind is AffineBinaryOpKind.Add:
-            new_expr = (expr.lhs.lhs * expr.rhs) + (expr.lhs.rhs * expr.rhs)
-            assert isinstance(new_expr, AffineBinaryOpExpr)
-            expr = new_expr
+            return (expr.lhs.lhs * expr.rhs) + (expr.lhs.rhs * expr.rhs)
     return expr
 
 
